@@ -239,6 +239,7 @@ def native_init_sharp(kinds_dims, n_ids, seed):
         return {'what': 'composition %s: shape %s' % (kinds_dims, np.shape(x0)), 'expected': (3, nb + len(names)), 'observed': list(np.shape(x0))}
     if not np.allclose(x0[:, nb:], M):
         return {'what': 'composition %s: the population-level block of the initial points is %s, the prior drew %s' % (kinds_dims, np.round(x0[:, nb:], 3).tolist(), np.round(M, 3).tolist()), 'expected': M.tolist(), 'observed': x0[:, nb:].tolist()}
+    nc_hits = []           # non-centred entries: |entry - location of the point| for every entry
     for s_ in range(3):
         sub = {lay.top[k]: M[s_, k] for k in range(lay.n_top)}
         for i in range(n_ids):
@@ -252,12 +253,20 @@ def native_init_sharp(kinds_dims, n_ids, seed):
                         continue
                     v = x0[s_, pos]
                     pos += 1
+                    if blk['kind'] in ('Gn', 'Ln', 'CGn'):
+                        mu_ = float(lay.theta_i(blk, i, 0, b).xreplace(sub))
+                        nc_hits.append(abs((np.log(v) if blk['kind'] == 'Ln' and v > 0 else v) - mu_))
                     if blk['kind'] in ('G', 'CG', 'T', 'L'):
                         mu = float(lay.theta_i(blk, i, 0, b).xreplace(sub))
                         got = np.log(v) if blk['kind'] == 'L' and v > 0 else v
                         if abs(got - mu) > 0.05:
                             return {'what': 'composition %s: initial point %d, individual %d: the individual-level entry %.4f (%s) is not a draw around the location %.4f of its own point'
                                     % (kinds_dims, s_, i, v, blk['kind'], mu), 'expected': mu, 'observed': float(v)}
+    if len(nc_hits) >= 6 and max(nc_hits) < 0.05:
+        # the individual-level entries of non-centred dimensions are standard-normal draws (eta); here the scales are tiny and every one of
+        # them sits on the location parameter (>= 1) of its point: they are the transformed individual parameters psi = mu + sigma eta
+        return {'what': 'composition %s: all %d individual-level entries of the non-centred dimensions lie within %.3g of the location parameters of their points (scales of order 0.001): they are the individual parameters psi, '
+                        'not the standard-normal entries eta that the posterior reads at these positions' % (kinds_dims, len(nc_hits), max(nc_hits)), 'expected': 'standard normal draws', 'observed': max(nc_hits)}
     return None
 
 
